@@ -77,7 +77,7 @@ Submit(S, side, type, q, p, ro, via, kind, rows) ==
   IN [S EXCEPT !.ords = Append(@, o),
                !.queue = IF type = "MARKET" THEN Append(@, i) ELSE @,
                \* ghost: what was submitted, when (strategy.price, position, inside an open hook?) and for which rows
-               !.g.subs = Append(@, [o |-> o, cur |-> S.cur, pq |-> S.q, inOpen |-> S.inOpen, kind |-> kind, rows |-> rows])]
+               !.g.subs = Append(@, [o |-> o, cur |-> S.cur, pq |-> S.q, en |-> S.en, inOpen |-> S.inOpen, kind |-> kind, rows |-> rows])]
 BuyAtMarket(S, q, via, kind, rows) == Submit(S, "buy", "MARKET", q, S.cur, FALSE, via, kind, rows)
 SellAtMarket(S, q, via, kind, rows) == Submit(S, "sell", "MARKET", q, S.cur, FALSE, via, kind, rows)
 \* Broker.reduce_position_at(qty, price, current_price)
@@ -143,7 +143,7 @@ Rows1(q, p) == << <<q, p>> >>
 Rows2(q1, p1, q2, p2) == << <<q1, p1>>, <<q2, p2>> >>
 Tot(rows) == SeqSum([i \in DOMAIN rows |-> rows[i][1]])
 EntryMenu(c, sg) == {Rows1(1, c), Rows1(2, c - 4 * sg), Rows1(1, c + 4 * sg)}
-                    \cup (IF MultiPoint THEN {Rows2(1, c, 1, c - 4 * sg)} ELSE {})
+                    \cup (IF MultiPoint THEN {Rows2(1, c, 1, c - 4 * sg), Rows2(1, c, 1, c + 8 * sg)} ELSE {})   \* scale-in below / pyramiding above
 \* <<stop_loss, take_profit>> set in go_long / go_short for a planned total
 GoExitMenu(c, sg, rows) ==
   LET tot == Tot(rows)
@@ -377,8 +377,11 @@ Bound == Len(st.ords) <= MaxOrd
 \* ================================================================ properties (StrategyProps vocabulary only)
 \* ---- C10: every submission of the last action
 RowsHave(rows, P(_)) == \E j \in DOMAIN rows : P(rows[j])
+\* the named deviation is only legitimate for a row on the wrong side of the POSITION's entry price
+WrongSideOfEntry(s, r) == IF s.kind = "sl" THEN (s.pq > 0 /\ RGe(RI(r[2]), s.en)) \/ (s.pq < 0 /\ RLe(RI(r[2]), s.en))
+                          ELSE (s.pq > 0 /\ RLe(RI(r[2]), s.en)) \/ (s.pq < 0 /\ RGe(RI(r[2]), s.en))
 IsReplacement(s) == /\ s.o.type = "MARKET" /\ s.inOpen
-                    /\ RowsHave(s.rows, LAMBDA r : SAbs(r[1]) = s.o.q) /\ ~RowsHave(s.rows, LAMBDA r : RowOf(s.o, r))
+                    /\ RowsHave(s.rows, LAMBDA r : SAbs(r[1]) = s.o.q /\ WrongSideOfEntry(s, r)) /\ ~RowsHave(s.rows, LAMBDA r : RowOf(s.o, r))
 SubOK(s) ==
   LET o == s.o IN
   CASE s.kind = "entry" ->
